@@ -391,6 +391,11 @@ class R:
         if self.concrete:
             return R(abs(self.v))
         e = self.z3()
+        # canonical sign: |e| and |-e| become the same term
+        if z3.is_app(e) and e.decl().kind() == z3.Z3_OP_UMINUS:
+            e = e.children()[0]
+        else:
+            e = _canon_sign(e)
         return R(z3.If(e >= 0, e, -e))
 
     def sqrt(self):
@@ -409,7 +414,7 @@ class R:
         return ctx().ufs.arccos(self)
 
     def arcsin(self):
-        return ctx().ufs.generic("arcsin", self)
+        return ctx().ufs.arcsin(self)
 
     def arctan(self):
         return ctx().ufs.generic("arctan", self)
@@ -484,6 +489,44 @@ class R:
             return f"R({self.v})"
         s = str(self.v)
         return "R(" + (s if len(s) < 80 else s[:77] + "...") + ")"
+
+
+def _small(t, limit=60):
+    """True if the term DAG has at most `limit` nodes (bounded walk)."""
+    seen = set()
+    stack = [t]
+    while stack:
+        x = stack.pop()
+        k = x.get_id()
+        if k in seen:
+            continue
+        seen.add(k)
+        if len(seen) > limit:
+            return False
+        stack.extend(x.children())
+    return True
+
+
+_CANON = None
+
+
+def _canon_sign(e):
+    """For small polynomial terms: expand, and flip the overall sign so that the leading coefficient
+    is positive; e and -e then yield the same canonical term. Larger terms are returned unchanged."""
+    global _CANON
+    if not _small(e):
+        return e
+    from . import poly
+
+    if _CANON is None or len(_CANON.atoms.terms) > 5000:
+        _CANON = poly.Normaliser()
+    n, d = _CANON.ratfun(e)
+    if d != poly.p_const(1) or not n:
+        return e
+    lead = min(n.items(), key=lambda kv: (len(kv[0]), kv[0]))
+    if lead[1] < 0:
+        n = poly.p_scale(n, -1)
+    return _CANON.to_z3(n)
 
 
 def ite(c, a, b):
@@ -644,6 +687,8 @@ class UFs:
         self.c = pathctx
         self.apps = {}  # name -> list of (args tuple of z3 terms, result z3 term)
         self.sqrt_consts = {}
+        self.inverse = {}  # id of result term -> (term, kind, args) for arccos / arcsin / arctan2 results
+        self.done = set()
 
     def _fresh(self, name, args):
         key = (name,) + tuple(a.hash() for a in args)
@@ -736,6 +781,25 @@ class UFs:
         if x.concrete and x.v == 0:
             return R(0) if name == "sin" else R(1)
         xe = x.z3()
+        inv = self.inverse.get(xe.get_id()) if not x.concrete else None
+        if inv is not None:
+            kind, args = inv[1], inv[2]
+            if kind == "arccos":  # cos(arccos t) = t ; sin(arccos t) = sqrt(1 - t^2) >= 0
+                t = args[0]
+                return t if name == "cos" else (1 - t * t).sqrt()
+            if kind == "arcsin":
+                t = args[0]
+                return t if name == "sin" else (1 - t * t).sqrt()
+            if kind == "arctan2":  # (cos, sin)(arctan2(y, x)) = (x, y)/sqrt(x^2 + y^2); any unit pair at the origin
+                y, xx = args
+                c, _ = self._fresh("cos", (xe,))
+                s_, _ = self._fresh("sin", (xe,))
+                rho = (xx * xx + y * y).sqrt()
+                if ("a2", xe.get_id()) not in self.done:
+                    self.done.add(("a2", xe.get_id()))
+                    self.c.axiom(c * c + s_ * s_ == 1)
+                    self.c.axiom(z3.And(c * rho.z3() == xx.z3(), s_ * rho.z3() == y.z3()))
+                return R(c) if name == "cos" else R(s_)
         r, new = self._fresh(name, (xe,))
         other = "cos" if name == "sin" else "sin"
         r2, new2 = self._fresh(other, (xe,))
@@ -756,6 +820,25 @@ class UFs:
             for a2, r2, _ in self.apps["arccos"][:-1]:
                 self.c.axiom(z3.Implies(xe < a2[0], r > r2))
                 self.c.axiom(z3.Implies(xe > a2[0], r < r2))
+        self.inverse[r.get_id()] = (r, "arccos", (x,))
+        return R(r)
+
+    def arcsin(self, x):
+        x = R(x)
+        xe = x.z3()
+        if not x.concrete:
+            self.c.definedness("arcsin argument outside [-1, 1]", z3.And(xe >= -1, xe <= 1))
+        r, new = self._fresh("arcsin", (xe,))
+        self.inverse[r.get_id()] = (r, "arcsin", (x,))
+        return R(r)
+
+    def arctan2(self, y, x):
+        y, x = R(y), R(x)
+        r, new = self._fresh("arctan2", (y.z3(), x.z3()))
+        if new:
+            pi = _realval(Fraction(math.pi))
+            self.c.axiom(z3.And(r >= -pi, r <= pi))
+        self.inverse[r.get_id()] = (r, "arctan2", (y, x))
         return R(r)
 
 
